@@ -373,6 +373,78 @@ Theorem C03_fix_changes_only_the_panic : forall H epochs roots sums oracle n has
 Proof. exact as_found_agrees_unless_guard_fires. Qed.
 Print Assumptions C03_fix_changes_only_the_panic.
 
+(* ---------------------------------------------------------------- (f) HISTORIES on one validator: the summaries cache is state
+   Model: get_historical_summary_st (value and cache after the call: the cache is REPLACED by the oracle's list exactly when that
+   list contains the requested index), validate_step, run_history.  Hypothesis on the oracle, stated precisely: every answer
+   `Some (Ok l)` given during the history is a prefix of ONE list `truth` (the eventual list of true summaries; errors and a nil oracle
+   are allowed at any step), and the initial cache is a prefix of it:  oracle_consistent truth o, is_prefix cache truth. *)
+
+(* the verdict of a step is ValidateHeaderAndProof over the cache of that moment: all per-call theorems above apply to every step *)
+Theorem C03_step_verdict : forall H g epochs roots cache oracle n hash proof,
+  fst (validate_step H g epochs roots cache (oracle, n, hash, proof)) =
+  validate_header_and_proof H g epochs roots cache oracle n hash proof.
+Proof. exact validate_step_verdict. Qed.
+Print Assumptions C03_step_verdict.
+
+(* invariant: after every call of every history the cache is a prefix of the true list (never misaligned) *)
+Theorem C03_history_cache_is_true_prefix : forall H truth g epochs roots evs cache,
+  is_prefix cache truth -> Forall (fun ev => oracle_consistent truth (ev_oracle ev)) evs ->
+  Forall (fun vc => is_prefix (snd vc) truth) (run_history H g epochs roots cache evs).
+Proof. exact history_cache_is_true_prefix. Qed.
+Print Assumptions C03_history_cache_is_true_prefix.
+
+(* the summary used for slot s is the TRUE summary of index (s - capella_start)/8192 (uint64), and every covered one is found *)
+Theorem C03_summary_used_is_true : forall truth cache oracle slot r,
+  is_prefix cache truth -> oracle_consistent truth oracle ->
+  get_historical_summary cache oracle slot = Ok r ->
+  nth_error truth (N.to_nat (summary_index slot)) = Some r.
+Proof. exact summary_is_true. Qed.
+Print Assumptions C03_summary_used_is_true.
+
+Theorem C03_summary_known_is_found : forall truth cache oracle slot r,
+  is_prefix cache truth -> oracle_consistent truth oracle ->
+  nth_error truth (N.to_nat (summary_index slot)) = Some r ->
+  (summary_index slot < nlen cache \/ exists l, oracle = Some (Ok l) /\ summary_index slot < nlen l) ->
+  get_historical_summary cache oracle slot = Ok r.
+Proof. exact summary_is_known. Qed.
+Print Assumptions C03_summary_known_is_found.
+
+(* call number k of ANY history: accepted => the header hash is the node at the position fixed by the CLAIMED slot inside the true
+   summary of that slot's index (or a collision).  Hence a proof re-claimed at another slot (another period, same record) is
+   rejected at every step: it would have to prove the leaf of the other period's true summary. *)
+Theorem C03_history_accept_summary_eras : forall H g epochs roots ttrees evs cache k oracle n hash proof ne ge,
+  is_prefix cache (map (troot H) ttrees) ->
+  Forall (fun ev => oracle_consistent (map (troot H) ttrees) (ev_oracle ev)) evs ->
+  nth_error evs k = Some (oracle, n, hash, proof) ->
+  summary_era n ne ge ->
+  option_map fst (nth_error (run_history H g epochs roots cache evs) k) = Some (Ok tt) ->
+  exists p st, decode_post 13 ne proof = Ok p /\
+    nth_error ttrees (N.to_nat (summary_index (pp_slot p))) = Some st /\
+    forall bt es,
+      subtree st (path_of 13 (K_epochSize + pp_slot p mod K_epochSize)) = Some bt ->
+      subtree bt (path_of ne ge) = Some es ->
+      troot H es = hash \/ Collision H.
+Proof. exact history_accept_summary_eras. Qed.
+Print Assumptions C03_history_accept_summary_eras.
+
+(* call number k of ANY history: the honest proof is accepted whenever the cache of that moment or the oracle's answer of that
+   step covers its summary *)
+Theorem C03_history_honest_summary_eras : forall H g epochs roots ttrees evs cache k oracle n ne ge slot st bt es bsibs esibs,
+  is_prefix cache (map (troot H) ttrees) ->
+  Forall (fun ev => oracle_consistent (map (troot H) ttrees) (ev_oracle ev)) evs ->
+  nth_error evs k = Some (oracle, n, troot H es, encode_post (rev bsibs) (troot H bt) (rev esibs) slot) ->
+  summary_era n ne ge -> slot < two64 ->
+  nth_error ttrees (N.to_nat (summary_index slot)) = Some st ->
+  (summary_index slot < nlen (cache_before H g epochs roots cache evs k) \/ exists l, oracle = Some (Ok l) /\ summary_index slot < nlen l) ->
+  subtree st (path_of 13 (K_epochSize + slot mod K_epochSize)) = Some bt ->
+  siblings H st (path_of 13 (K_epochSize + slot mod K_epochSize)) = Some bsibs ->
+  subtree bt (path_of ne ge) = Some es ->
+  siblings H bt (path_of ne ge) = Some esibs ->
+  Forall len32 bsibs -> Forall len32 esibs -> len32 (troot H bt) ->
+  option_map fst (nth_error (run_history H g epochs roots cache evs) k) = Some (Ok tt).
+Proof. exact history_honest_summary_eras. Qed.
+Print Assumptions C03_history_honest_summary_eras.
+
 (* ---------------------------------------------------------------- premises are satisfiable by non-trivial values *)
 Example C03_nonvacuous :
   let n := 8197 in                                   (* epoch 1, record 5 *)
@@ -404,4 +476,17 @@ Proof.
   split; [repeat (apply Forall_cons; [vm_compute; reflexivity|]); apply Forall_nil|].
   eexists. split; [vm_compute; reflexivity|]. split; [reflexivity|]. split; [reflexivity|].
   vm_compute; reflexivity.
+Qed.
+
+(* a history step whose execution stage passes (w_root is folded from w_hash) consults the oracle, the cache becomes the oracle's
+   list although the verdict is an error; the next call is served from the cache (the failing oracle is not asked) *)
+Example C03_history_nonvacuous :
+  let proof := concat (repeat zero32 13) ++ w_root ++ concat (repeat zero32 11) ++ n2le 8 (capella_start + 8192) in
+  let answer := [zero32; w_root] in
+  oracle_consistent (answer ++ [zero32]) (Some (Ok answer)) /\
+  map snd (run_history sha_pair true [] [] [] [(Some (Ok answer), K_ShanghaiBlockNumber, w_hash, proof);
+                                               (Some (Err 8), K_ShanghaiBlockNumber, w_hash, proof)]) = [answer; answer] /\
+  map fst (run_history sha_pair true [] [] [] [(Some (Err 8), K_ShanghaiBlockNumber, w_hash, proof)]) = [Err E_ORACLE].
+Proof.
+  cbv zeta. split; [exists [zero32]; reflexivity|]. split; vm_compute; reflexivity.
 Qed.
